@@ -7,6 +7,13 @@ NOTES = ("Model-based verification with explicit TLA+ specifications (spec/*.tla
 
 CHECKS = [
     {
+        "property_id": "C12",
+        "design_ref": "DESIGN.md §4 C12",
+        "technique": "TLA+ model Tle.tla (69-column format as integer fields -> character sequences, Parse/Valid/checksum) and TleStream.tla (multi-TLE texts) enumerated by TLC; every state replayed on the real Tle class",
+        "text": "The specification formats TLE lines from integer fields by the published column table and TLC proves Parse(Format(f)) = f, validity (69 columns, checksums) and detection of every single-digit corruption for all pairs of (field, corner value) substitutions into a base TLE. Each generated TLE text is fed to the real Tle: parsed fields must equal the printed ones to their precision (epoch to 1e-8 day), Tle.from_orbit(tle.orbit()) must reproduce both lines and the name line character for character; single-digit corruptions of every column, wrong lengths and wrong line numbers must raise TleParseError. TleStream.tla enumerates every text of <=4/5 lines from 9 line kinds; from_string must yield exactly the valid entries in order, and raise with error='raise' iff an invalid line 2 is present.",
+        "level_note": "Pairs of corner values around one base TLE, not the full product. Classification fixed to 'U'; zero written canonically; day-of-year <= 365. Orbits given in other forms/frames are judged by C01/C02, only the text here. Trusted: TLC, the column table transcribed in Tle.tla.",
+    },
+    {
         "property_id": "C09",
         "design_ref": "DESIGN.md §4 C09",
         "technique": "TLA+ model Interp.tla: halving search + window arithmetic vs contract, Lagrange reproduction of the Newton basis proved modulo primes by TLC over every (table, order, query); each state replayed on the real Interp/Ephem",
@@ -45,5 +52,5 @@ CHECKS = [
 
 _PENDING = "check not built yet in this session (design in DESIGN.md §4); will be claimed once its TLA+ model and conformance harness exist"
 NOT_APPLICABLE = [
-    {"property_id": f"C{i:02d}", "reason": _PENDING} for i in range(1, 20) if i not in (3, 8, 9, 10)
+    {"property_id": f"C{i:02d}", "reason": _PENDING} for i in range(1, 20) if i not in (3, 8, 9, 10, 12)
 ]
